@@ -133,6 +133,12 @@ def check_copies(rec: Rec, desc, validated, origin):
 
 def replay(rec, case):
     i = case["input"]
+    if i.get("cross"):
+        check_cross_process(rec, [tuple(d) for d in i["items"]], i.get("hashseed", "1"))
+        return
+    if i.get("container"):
+        check_containers(rec, [tuple(d) for d in i["items"]], "replay")
+        return
     if "obj" in i:
         check_copies(rec, tuple(i["obj"]), i["validated"], "replay")
     elif "items" in i:
@@ -192,6 +198,76 @@ def hyp_body(rec, v):
         rec.case("sort-list", tuple(v[1]))
 
 
+def check_containers(rec: Rec, descs, origin):
+    """deepcopy / pickle of containers holding several objects (shared memo): every element keeps class, text, country."""
+    inp = {"items": [list(d) for d in descs], "origin": origin, "container": True}
+    try:
+        objs = [build(d)[0] for d in descs]
+        want = [describe(o) if not isinstance(o, str) or type(o) is not str else o for o in objs]
+    except Exception as e:  # noqa: BLE001
+        rec.fail(f"construct|{type(e).__name__}", "construct_unvalidated", inp, "objects", f"{type(e).__name__}: {e}")
+        return
+    for name, fn in (("deepcopy-list", lambda x: copy.deepcopy(x)), ("deepcopy-dict", lambda x: list(copy.deepcopy(dict(enumerate(x))).values())),
+                     ("pickle-list", lambda x: pickle.loads(pickle.dumps(x))), ("copy-list", lambda x: copy.copy(x))):
+        try:
+            got_objs = fn(objs)
+            got = [describe(o) if type(o) is not str else o for o in got_objs]
+        except Exception as e:  # noqa: BLE001
+            rec.fail(f"container_copy_raises|{name}|{type(e).__name__}", "copy_total", {**inp, "how": name}, want, f"{type(e).__name__}: {e}")
+            continue
+        if got != want:
+            rec.fail(f"container_copy_differs|{name}", "copy_same_components", {**inp, "how": name}, want, got)
+
+
+CROSS_CHILD = r"""
+import pickle, sys, json
+from schwifty import BBAN, BIC, IBAN
+descs = json.load(sys.stdin)
+out = []
+for d in descs:
+    kind, text = d[0], d[1]
+    o = IBAN(text, allow_invalid=True) if kind == "iban" else BIC(text, allow_invalid=True) if kind == "bic" else BBAN(d[2], text)
+    hash(o); o == text; {o: 1}          # ordinary use before the object is shipped
+    if kind == "iban":
+        hash(o.bban)
+    out.append(o)
+sys.stdout.buffer.write(pickle.dumps(out))
+"""
+
+
+def check_cross_process(rec: Rec, descs, hashseed):
+    """Objects created, hashed and pickled by another interpreter (other PYTHONHASHSEED) behave as their compact string here."""
+    import json as _json
+    import os
+    import subprocess
+    import sys
+    env = dict(os.environ)
+    env["PYTHONHASHSEED"] = str(hashseed)
+    p = subprocess.run([sys.executable, "-c", CROSS_CHILD], input=_json.dumps([list(d) for d in descs]).encode(),
+                       capture_output=True, env=env, timeout=300)
+    inp = {"items": [list(d) for d in descs][:6], "origin": "cross-process", "hashseed": str(hashseed), "cross": True}
+    if p.returncode != 0:
+        rec.fail("cross_process_child_fails", "pickle_across_processes", inp, "pickled objects", p.stderr.decode()[-300:])
+        return
+    try:
+        objs = pickle.loads(p.stdout)
+    except Exception as e:  # noqa: BLE001
+        rec.fail(f"cross_process_unpickle|{type(e).__name__}", "pickle_across_processes", inp, "objects", f"{type(e).__name__}: {e}")
+        return
+    for d, o in zip(descs, objs):
+        fresh, key = build(d)
+        one = {**inp, "items": [list(d)]}
+        if hash(o) != hash(key) or hash(o) != hash(fresh):
+            rec.fail(f"cross_process_hash|{d[0]}", "hash_as_compact_string", one, hash(key), hash(o))
+            continue
+        if not (o == fresh and o == key) or (key not in {o: 1}) or (o not in {key}):
+            rec.fail(f"cross_process_equality|{d[0]}", "dict_key_interchangeable", one, True, False)
+            continue
+        if describe(o) != describe(fresh):
+            rec.fail(f"cross_process_components|{d[0]}", "copy_same_components", one, describe(fresh), describe(o))
+        rec.classes["cross-process-object"] += 1
+
+
 def shard_copies(arg):
     cc, seed, tier = arg
     import random
@@ -210,6 +286,12 @@ def shard_copies(arg):
             rec.case(f"copy-{kind}-unvalidated", (kind, bad), {"obj": [kind, bad]} if k == 0 else None)
         check_copies(rec, ("bban", t[4:], cc), False, "direct")
         rec.case("copy-bban-direct", ("bban", t[4:], cc))
+        # containers: objects with the same text but different class / country in one deepcopy (shared memo)
+        from ._shared import sibling_ibans
+        sib = [("bban", t[4:], y) for y, _ in sibling_ibans(cc, t[4:], limit=3)]
+        items = [("bban", t[4:], cc)] + sib + [("iban", t), ("str", t), ("bic", t), ("bban", t, cc), ("iban", t)]
+        check_containers(rec, items, "container")
+        rec.case("copy-container" + ("-with-sibling-country" if sib else ""), ("container", t), {"items": [list(i) for i in items[:4]]} if k == 0 else None)
         check_copies(rec, ("bban", "x1", "XX"), False, "direct")
     return rec
 
@@ -236,5 +318,16 @@ def run(ctx):
         bad = b[:3] + "-" + b[4:] + "Q"
         check_copies(ctx.rec, ("bic", bad), False, "unvalidated")
         ctx.rec.case("copy-bic-unvalidated", ("bic", bad), {"obj": ["bic", bad]} if b is bics[0] else None)
-    ctx.require_classes("pair-equal-cross-class", "pair-different", "sort-list", "copy-iban-valid", "copy-iban-unvalidated",
+    # objects hashed and pickled in another interpreter with another hash seed
+    rng = ctx.rng("cross")
+    g = gen()
+    descs = []
+    for cc in rng.sample(o.countries(), ctx.pick(25, 126)):
+        t = g.iban(cc, rng)
+        descs += [("iban", t), ("bban", t[4:], cc), ("iban", t[:-1] + "-"), ("bic", "GENODEM1GLS"), ("bic", "genodem1 gl")]
+    for hs in ctx.pick(("1", "4242"), ("1", "2", "4242", "random")):
+        check_cross_process(ctx.rec, descs, hs)
+        ctx.rec.evals += len(descs)
+    ctx.rec.sample("cross-process-object", {"objects": len(descs), "first": list(descs[0])})
+    ctx.require_classes("cross-process-object", "copy-container", "copy-container-with-sibling-country", "pair-equal-cross-class", "pair-different", "sort-list", "copy-iban-valid", "copy-iban-unvalidated",
                         "copy-bban_of_iban-valid", "copy-bban-direct", "copy-bic-valid", "copy-bic-unvalidated")
